@@ -14,9 +14,16 @@ from .. import engine, symx
 ROOT = os.path.dirname(os.path.dirname(os.path.dirname(os.path.abspath(__file__))))
 
 
+def _budget(lv: dict) -> float:
+    """per-level time budget; the short (quick-tier) budgets are tripled so that a loaded machine does not turn a
+    level that normally takes seconds into an inconclusive run"""
+    b = float(lv.get('budget_s', 60.0))
+    return b * 3 if b <= 200 else b
+
+
 def _one_level(lv: dict) -> tuple:
     t0 = time.time()
-    st = engine.explore(lv['module'], lv['fn'], lv['kwargs'], budget_s=lv.get('budget_s', 60.0), nproc=1)
+    st = engine.explore(lv['module'], lv['fn'], lv['kwargs'], budget_s=_budget(lv), nproc=1)
     wall = time.time() - t0
     tw = None
     if lv.get('twin', True) and st.complete:
@@ -59,7 +66,7 @@ def run_levels(levels: list[dict], total_budget_s: float | None = None) -> dict:
         if total_budget_s is not None and time.time() - t_start > total_budget_s and not lv.get('required'):
             continue
         t0 = time.time()
-        st = engine.explore(lv['module'], lv['fn'], lv['kwargs'], budget_s=lv.get('budget_s', 60.0))
+        st = engine.explore(lv['module'], lv['fn'], lv['kwargs'], budget_s=_budget(lv))
         rec = dict(lv)
         rec['stats'] = st
         rec['wall_s'] = time.time() - t0
